@@ -285,6 +285,62 @@ func Run(c *engine.Ctx) {
 	docName(c)
 	lifecycleLists(c)
 	zones(c)
+	stringContents(c)
+}
+
+// stringContents: every text attribute the statement lists x the near-string menu, on the root and on the child.
+func stringContents(c *engine.Ctx) {
+	c.Group("string-contents")
+	type slot struct {
+		Name string
+		Set  func(n *sbom.Node, v string)
+	}
+	slots := []slot{
+		{"name", func(n *sbom.Node, v string) { n.Name = v }},
+		{"version", func(n *sbom.Node, v string) { n.Version = v }},
+		{"description", func(n *sbom.Node, v string) { n.Description = v }},
+		{"copyright", func(n *sbom.Node, v string) { n.Copyright = v }},
+		{"license", func(n *sbom.Node, v string) { n.Licenses = []string{v} }},
+		{"purl", func(n *sbom.Node, v string) { setID(n, sbom.SoftwareIdentifierType_PURL, "pkg:generic/"+v) }},
+		{"hash", func(n *sbom.Node, v string) { n.Hashes = map[int32]string{int32(sbom.HashAlgorithm_SHA256): v} }},
+		{"extref.url", func(n *sbom.Node, v string) {
+			n.ExternalReferences = []*sbom.ExternalReference{{Type: sbom.ExternalReference_VCS, Url: "https://r/" + v, Comment: "c"}}
+		}},
+		{"extref.comment", func(n *sbom.Node, v string) {
+			n.ExternalReferences = []*sbom.ExternalReference{{Type: sbom.ExternalReference_VCS, Url: "https://r/x", Comment: v}}
+		}},
+		{"extref.hash", func(n *sbom.Node, v string) {
+			n.ExternalReferences = []*sbom.ExternalReference{{Type: sbom.ExternalReference_VCS, Url: "https://r/x", Hashes: map[int32]string{int32(sbom.HashAlgorithm_SHA1): v}}}
+		}},
+	}
+	var ms []string
+	for _, s := range gen.NearStrings() {
+		if s != "" {
+			ms = append(ms, s)
+		}
+	}
+	c.Bound("string-contents", fmt.Sprintf("%d text attributes x %d near-strings x {root, child} x {1.4, 1.5}", len(slots), len(ms)))
+	for si := range slots {
+		for mi := range ms {
+			for who := 0; who < 2; who++ {
+				for _, f := range versions {
+					si, mi, who, f := si, mi, who, f
+					c.Case(func() any {
+						return map[string]any{"attribute": slots[si].Name, "value": ms[mi], "node": who, "format": string(f)}
+					}, func(t *engine.T) *engine.Violation {
+						nl := two()
+						slots[si].Set(nl.Nodes[who], ms[mi])
+						if v := RoundTrip(t, docOf(nl), f); v != nil {
+							return v
+						}
+						t.State(fmt.Sprint("str:", slots[si].Name, ms[mi], who, f))
+						t.Outcome("string-ok")
+						return nil
+					})
+				}
+			}
+		}
+	}
 }
 
 // lifecycleLists: every sequence of <=3 lifecycle entries over a menu mixing predefined phases and
